@@ -118,6 +118,34 @@ SLICES = {
 }
 
 
+# Slices of MC_Pair.tla (two endpoints, C01)
+PAIR_DEFAULT = dict(Ver="v311", AutoPub=True, AutoPing=True, KA=0, SRM=NA, CRM=NA, STAM=NA, CTAM=NA,
+                    MaxOps=2, MaxLoss=1, MaxFire=0, Ops={"pub0", "pub1", "pub2"}, Sides={"c", "s"}, AliasModes={"none"},
+                    Chunks=False, EndpointProps={"C05", "C06", "C07", "C08", "C12", "C13", "C14", "C15", "C19"})
+PAIR_SLICES = {
+    "pair_v311_auto": dict(),
+    "pair_v311_manual": dict(AutoPub=False, AutoPing=False, Ops={"pub1", "pub2", "sub", "ping"}, Sides={"c"}),
+    "pair_v311_chunks": dict(Chunks=True, MaxOps=1, Ops={"pub1", "pub2"}),
+    "pair_v50_auto": dict(Ver="v50", SRM=1, CRM=2, Ops={"pub1", "pub2"}),
+    "pair_v50_manual": dict(Ver="v50", AutoPub=False, SRM=2, Ops={"pub1", "pub2", "unsub"}, Sides={"s"}),
+    "pair_v50_alias": dict(Ver="v50", STAM=1, CTAM=1, AliasModes={"none", "bind", "use"}, Ops={"pub0", "pub1"}, MaxOps=3, MaxLoss=1),
+    "pair_v50_ka": dict(Ver="v50", KA=10, MaxFire=1, AutoPing=False, Ops={"pub1", "ping"}, Chunks=True, MaxOps=1),
+}
+
+
+def pair_cfg_text(name, edges=True):
+    d = dict(PAIR_DEFAULT)
+    d.update(PAIR_SLICES[name])
+    lines = ["\\* generated by lib/slices.py from pair slice '%s' - do not edit" % name,
+             "SPECIFICATION Spec", "VIEW view", "CHECK_DEADLOCK FALSE", "PROPERTY NoViolation"]
+    if edges:
+        lines.append("ACTION_CONSTRAINT PrintEdge")
+    lines.append("CONSTANTS")
+    for k, v in d.items():
+        lines.append(" %s = %s" % (k, fmt(v)))
+    return "\n".join(lines) + "\n"
+
+
 def fmt(v):
     if isinstance(v, bool):
         return "TRUE" if v else "FALSE"
@@ -153,6 +181,9 @@ def write_all(spec_dir):
     for name in SLICES:
         with open(os.path.join(spec_dir, "MC_%s.cfg" % name), "w") as f:
             f.write(cfg_text(name))
+    for name in PAIR_SLICES:
+        with open(os.path.join(spec_dir, "MC_%s.cfg" % name), "w") as f:
+            f.write(pair_cfg_text(name))
 
 
 if __name__ == "__main__":
@@ -162,6 +193,8 @@ if __name__ == "__main__":
         os.makedirs(sys.argv[2], exist_ok=True)
         for name in SLICES:
             open(os.path.join(sys.argv[2], "MC_%s.cfg" % name), "w").write(cfg_text(name, edges=False))
+        for name in PAIR_SLICES:
+            open(os.path.join(sys.argv[2], "MC_%s.cfg" % name), "w").write(pair_cfg_text(name, edges=False))
         sys.exit(0)
     write_all(os.path.join(here, "spec"))
     print("wrote %d slice configurations" % len(SLICES))
